@@ -295,6 +295,9 @@ func runC16(p *Program, r *Report) {
 		if af == nil || bf == nil || c.Op != "==" {
 			continue
 		}
+		if _, isC := af.ConstInt(); isC {
+			af, bf = bf, af
+		}
 		if cv, isC := bf.ConstInt(); isC {
 			if ok, _ := checkBE(e, af, types.Typ[types.Uint32], "hdr", 36, 4); ok {
 				if cv == 0x61637370 {
@@ -389,26 +392,35 @@ func checkVersionString(p *Program, r *Report) {
 		r.Undecide(rule, "Version.String", p.FnPos(fn), "not extractable")
 		return
 	}
-	o, ok := outs[0].Ret.(*Opaque)
-	if !ok || o.Fn != "sprintf" || len(o.Args) != 4 {
-		r.Violate(rule, "Version.String", p.FnPos(fn), "does not return fmt.Sprintf(format, major, minor, bugfix): "+valKey(outs[0].Ret))
+	sf, ok := outs[0].Ret.(*StrForm)
+	if !ok {
+		r.Violate(rule, "Version.String", p.FnPos(fn), "does not render three decimal numbers separated by dots: "+trunc(valKey(outs[0].Ret), 200))
 		return
 	}
-	fs, _ := o.Args[0].(*StrVal)
-	okFmt := fs != nil && strings.ReplaceAll(fs.S, "%v", "%d") == "%d.%d.%d"
-	why := ""
-	if !okFmt {
-		why = fmt.Sprintf("format is %s, required \"%%d.%%d.%%d\" (decimal major.minor.bugfix)", valKey(o.Args[0]))
+	okFmt, why := true, ""
+	// expected: dec(major) "." dec(minor) "." dec(bugfix)
+	if len(sf.Parts) != 5 {
+		okFmt, why = false, "rendering is "+trunc(sf.Key(), 200)+`; required decimal major "." minor "." bugfix`
 	}
-	want := []struct{ atom string; lo, n int }{{"pv.Major", 0, 8}, {"pv.MinorAndRev", 4, 4}, {"pv.MinorAndRev", 0, 4}}
+	want := []struct {
+		atom  string
+		lo, n int
+	}{{"pv.Major", 0, 8}, {"pv.MinorAndRev", 4, 4}, {"pv.MinorAndRev", 0, 4}}
 	names := []string{"major", "minor (high nibble)", "bug-fix (low nibble)"}
-	for k, w := range want {
-		f, isF := o.Args[k+1].(*Form)
-		if !isF {
-			okFmt, why = false, names[k]+" argument is not a number"
+	for k := 0; okFmt && k < 5; k++ {
+		if k%2 == 1 {
+			if sv, isS := sf.Parts[k].(*StrVal); !isS || sv.S != "." {
+				okFmt, why = false, "separator is "+valKey(sf.Parts[k])+`, required "."`
+			}
 			continue
 		}
-		bv := e.BVOf(f, types.Typ[types.Uint8])
+		dv, isD := sf.Parts[k].(*DecVal)
+		if !isD {
+			okFmt, why = false, names[k/2]+" is not rendered as a decimal number: "+valKey(sf.Parts[k])
+			continue
+		}
+		w := want[k/2]
+		bv := e.BVOf(dv.X, types.Typ[types.Uint8])
 		for j, b := range bv.Bits {
 			var wb Bit
 			if j < w.n {
@@ -418,12 +430,12 @@ func checkVersionString(p *Program, r *Report) {
 			}
 			if b != wb {
 				okFmt = false
-				why = fmt.Sprintf("%s argument is [%s]; required bits %d..%d of %s", names[k], bv.Key(), w.lo+w.n-1, w.lo, w.atom)
+				why = fmt.Sprintf("%s is [%s]; required bits %d..%d of %s", names[k/2], bv.Key(), w.lo+w.n-1, w.lo, w.atom)
 				break
 			}
 		}
 	}
-	r.Check(okFmt, rule, "Version.String", p.FnPos(fn), "Sprintf(\"%d.%d.%d\", Major, MinorAndRev bits 7..4, MinorAndRev bits 3..0)", why)
+	r.Check(okFmt, rule, "Version.String", p.FnPos(fn), "decimal Major \".\" MinorAndRev bits 7..4 \".\" MinorAndRev bits 3..0", why)
 }
 
 // checkReadProfilePropagation: a failing header read makes ReadProfile return (nil, err).
